@@ -468,6 +468,101 @@ def r_held(prog, R, E, tier):
     r.info["may_complete_functions"] = sum(1 for v in E.may.values() if v)
 
 
+def _points_into_heap_state(prog, f, pn, depth=0, seen=None):
+    """some caller (transitively, through parameters handed on) passes the address of a member of a heap object (&ctx->field) for parameter pn"""
+    seen = seen if seen is not None else set()
+    if (f.key, pn) in seen or depth > 4:
+        return False
+    seen.add((f.key, pn))
+    pi = f.param_index(pn)
+    if pi is None:
+        return False
+    for g, b, i, c in prog.callers_of(f):
+        if pi >= len(c.get("args", [])):
+            continue
+        a = strip(c["args"][pi])
+        if a is None:
+            continue
+        if a.get("k") == "un" and a["op"] == "&":
+            t = strip(a["e"])
+            if t is not None and t.get("k") == "mem" and t.get("arrow"):
+                return True
+        if a.get("k") == "var" and a.get("vk") == "param" and _points_into_heap_state(prog, g, a["n"], depth + 1, seen):
+            return True
+    return False
+
+
+def r_outparam(prog, R, E):
+    r = R.rule("R-C01-OUTPARAM", "after a call that may run the completion callback, nothing is written through an out-parameter unless the call reported that the request is still "
+               "pending: the callback may have released the caller's request state, and the library's own callers point such out-parameters into that state (&hquery->qid_a)", floor=1,
+               analysis="M2 effect + reachability from the call to stores through pointer parameters, edges on which the effect is excluded pruned")
+    memo = {}
+    n = 0
+    for f in sorted(prog.funcs.values(), key=lambda x: x.key):
+        if not f.file.startswith("src/lib/") or f.file.startswith(("src/lib/dsa/", "src/lib/str/", "src/lib/util/")):
+            continue
+        outs = {}
+        for b, i, el in f.elements():
+            if el["k"] == "asg":
+                l = strip(el["e"]["l"])
+                if l is not None and l.get("k") == "un" and l["op"] == "*" and is_var(strip(l["e"])) and strip(l["e"]).get("vk") == "param":
+                    outs.setdefault(strip(l["e"])["n"], []).append((b, i, el))
+        if not outs:
+            continue
+        sites = [(b, i, c) for b, i, c in f.calls() if E.call_may_complete(f, c)]
+        for b, i, c in sites:
+            cname = c.get("callee") or "<callback>"
+            avoid = list(_safe_edges(prog, E, f, c, memo))
+            for g in (call_result_branches(f, c["callee"]) if c.get("callee") else []):
+                if g["call"].get("id") == c.get("id"):
+                    pe = status_pass_edge(g)
+                    if pe:
+                        avoid.append((g["block"].id, pe[0]))      # the request is pending: its callback has not run
+            # the same test written apart from the call: a branch on the variable that holds the call's result, not reassigned in between
+            holder = None
+            if i + 1 < len(b.els):
+                e1 = b.els[i + 1]
+                if e1["k"] == "asg" and e1["e"]["op"] == "=" and is_var(strip(e1["e"]["l"])):
+                    r1 = strip(e1["e"].get("r"))
+                    if r1 is not None and r1.get("k") == "call" and r1.get("ref") and r1.get("id") == c.get("id"):
+                        holder = strip(e1["e"]["l"])["n"]
+            if holder:
+                same = reach_avoiding(f, b.id, [], lambda e2: e2["k"] == "asg" and is_var(strip(e2["e"]["l"]), holder), i + 2)
+                for blk2 in f.blocks.values():
+                    if blk2.id != b.id and blk2.id not in same:
+                        continue
+                    br2 = f.branch(blk2)
+                    if not br2:
+                        continue
+                    ats2 = atoms(br2[0], True)
+                    if len(ats2) != 1:
+                        continue
+                    op2, l2, rr2 = norm_cmp(ats2[0][0], ats2[0][1])
+                    if not is_var(strip(l2), holder):
+                        continue
+                    pe = status_pass_edge({"op": op2, "rhs": rr2, "true": br2[1], "false": br2[2]})
+                    if pe:
+                        avoid.append((blk2.id, pe[0]))
+            pred = reach_avoiding(f, b.id, avoid, None, i + 1)
+            for pn, stores in sorted(outs.items()):
+                if not _points_into_heap_state(prog, f, pn):
+                    continue
+                hit = None
+                for sb, si, sel in stores:
+                    if (sb.id == b.id and si > i) or sb.id in pred:
+                        hit = (sb, si, sel)
+                        break
+                n += 1
+                k = "fn=%s out=%s after=%s" % (f.name, pn, cname)
+                if hit:
+                    r.viol(k, f.name, f.loc(hit[2]), "'%s' is stored through the out-parameter '%s' on a path on which %s may already have run the completion callback (it did not report the request as pending): "
+                           "the callback chain frees the caller's request state, and callers pass pointers into that state -- a write into released memory" % (hit[2].get("t", ""), pn, cname),
+                           trail=["call at %s" % f.loc(c["ln"]), "store at %s" % f.loc(hit[2])])
+                else:
+                    r.ok(k, f.loc(c["ln"]))
+    r.info["sites_x_outparams"] = n
+
+
 def _defined_after_only(f, name, b, i, use):
     """the variable had no value at the call (declared/first assigned later): its first mention after the call is its definition"""
     return False
@@ -1110,3 +1205,4 @@ def run(prog, R, tier):
     r_sendq(prog, R, E)
     r_defer(prog, R, E)
     r_qref(prog, R)
+    r_outparam(prog, R, E)
